@@ -801,8 +801,9 @@ def main():
     import translate_missing
     import translate_driver
     import translate_diff
+    import translate_validate
     failed = {}
-    ERR = (Unsupported, translate_pyx.Unsupported, translate_walk.Unsupported, translate_eq.Unsupported, translate_indx.Unsupported, translate_strides.Unsupported, translate_missing.Unsupported, translate_driver.Unsupported, translate_diff.Unsupported,
+    ERR = (Unsupported, translate_pyx.Unsupported, translate_walk.Unsupported, translate_eq.Unsupported, translate_indx.Unsupported, translate_strides.Unsupported, translate_missing.Unsupported, translate_driver.Unsupported, translate_diff.Unsupported, translate_validate.Unsupported,
            StopIteration, SyntaxError, KeyError, IndexError, AttributeError)
 
     def piece(name, path, gen, stub_import=None):
@@ -830,6 +831,7 @@ def main():
           lambda: translate_missing.generate([("ffuncs", rd("ffuncs.py")), ("xfuncs", rd("xfuncs.py"))]), "CatiiModel.Prelude")
     piece("driver", "DriverGen.lean", lambda: translate_driver.generate(rd("ccubes.py"), rd("xcubes.py")), "CatiiModel.Sched")
     piece("marginal_diff", "DiffGen.lean", lambda: translate_diff.generate(rd("ccubes.py")), "CatiiModel.Cube")
+    piece("validate", "ValidateGen.lean", lambda: translate_validate.generate(rd("iindexes.py")), "CatiiModel.IIndex")
     return 3 if failed else 0
 
 
